@@ -73,12 +73,12 @@ theorem mem_erase {m : EntMap α} {id : α} {p : α × Ent α} : p ∈ erase m i
 /-! ### one document -/
 
 /-- An entity of a document that is current and has a descriptor left after the protocol filter. -/
-def eligible (pol : Policy) (chk : Bool) (now : Int) (p2 : α) (e : Ent α) : Bool :=
-  !(chk && expired now e.validUntil) && (prepEnt pol p2 e).isSome
+def eligible (chk : Bool) (now : Int) (p2 : α) (e : Ent α) : Bool :=
+  !(chk && expired now e.validUntil) && (prepEnt p2 e).isSome
 
-theorem lookup_doEntity (pol : Policy) (chk : Bool) (now : Int) (p2 : α) (m : EntMap α) (e : Ent α) (id : α) :
-    lookup (doEntity pol chk now p2 m e) id =
-      (lookup m id).or (if e.id = id ∧ eligible pol chk now p2 e = true then prepEnt pol p2 e else none) := by
+theorem lookup_doEntity (chk : Bool) (now : Int) (p2 : α) (m : EntMap α) (e : Ent α) (id : α) :
+    lookup (doEntity chk now p2 m e) id =
+      (lookup m id).or (if e.id = id ∧ eligible chk now p2 e = true then prepEnt p2 e else none) := by
   unfold doEntity eligible
   by_cases hx : (chk && expired now e.validUntil) = true
   · simp [hx]
@@ -93,29 +93,29 @@ theorem lookup_doEntity (pol : Policy) (chk : Bool) (now : Int) (p2 : α) (m : E
         | some x => simp
       · simp [hid]
     · simp only [hh, Bool.false_eq_true, ↓reduceIte]
-      cases hp : prepEnt pol p2 e with
+      cases hp : prepEnt p2 e with
       | none => simp
       | some d =>
         simp only [lookup_append, lookup_singleton, Option.isSome_some, and_true]
 
-theorem lookup_foldl_doEntity (pol : Policy) (chk : Bool) (now : Int) (p2 : α) (es : List (Ent α)) (m : EntMap α) (id : α) :
-    lookup (es.foldl (doEntity pol chk now p2) m) id =
-      (lookup m id).or ((es.find? (fun e => decide (e.id = id) && eligible pol chk now p2 e)).bind (prepEnt pol p2)) := by
+theorem lookup_foldl_doEntity (chk : Bool) (now : Int) (p2 : α) (es : List (Ent α)) (m : EntMap α) (id : α) :
+    lookup (es.foldl (doEntity chk now p2) m) id =
+      (lookup m id).or ((es.find? (fun e => decide (e.id = id) && eligible chk now p2 e)).bind (prepEnt p2)) := by
   induction es generalizing m with
   | nil => simp
   | cons e rest ih =>
     rw [List.foldl_cons, ih, lookup_doEntity, List.find?_cons]
-    by_cases h : e.id = id ∧ eligible pol chk now p2 e = true
+    by_cases h : e.id = id ∧ eligible chk now p2 e = true
     · obtain ⟨h1, h2⟩ := h
-      have hsome : (prepEnt pol p2 e).isSome = true := by
+      have hsome : (prepEnt p2 e).isSome = true := by
         unfold eligible at h2; simp only [Bool.and_eq_true] at h2; exact h2.2
-      cases hp : prepEnt pol p2 e with
+      cases hp : prepEnt p2 e with
       | none => rw [hp] at hsome; cases hsome
       | some d => cases lookup m id <;> simp [h1, h2, hp]
-    · have : (decide (e.id = id) && eligible pol chk now p2 e) = false := by
+    · have : (decide (e.id = id) && eligible chk now p2 e) = false := by
         by_cases h1 : e.id = id
-        · have : eligible pol chk now p2 e = false := by
-            cases he : eligible pol chk now p2 e with
+        · have : eligible chk now p2 e = false := by
+            cases he : eligible chk now p2 e with
             | false => rfl
             | true => exact absurd ⟨h1, he⟩ h
           simp [this]
@@ -123,8 +123,8 @@ theorem lookup_foldl_doEntity (pol : Policy) (chk : Bool) (now : Int) (p2 : α) 
       simp [h, this]
 
 
-theorem prepEnt_some {pol : Policy} {p2 : α} {e e' : Ent α} (h : prepEnt pol p2 e = some e') :
-    e' = { e with roles := e.roles.filter (keepRole pol p2 e) } ∧ e.roles.filter (keepRole pol p2 e) ≠ [] := by
+theorem prepEnt_some {p2 : α} {e e' : Ent α} (h : prepEnt p2 e = some e') :
+    e' = { e with roles := e.roles.filter (saml2 p2) } ∧ e.roles.filter (saml2 p2) ≠ [] := by
   unfold prepEnt at h
   simp only at h
   split at h
@@ -133,35 +133,6 @@ theorem prepEnt_some {pol : Policy} {p2 : α} {e e' : Ent α} (h : prepEnt pol p
     cases h
     refine ⟨rfl, ?_⟩
     intro h0; rw [h0] at hne; exact hne rfl
-
-theorem keepRole_ideal (p2 : α) (e : Ent α) (r : Role α) : keepRole Policy.ideal p2 e r = saml2 p2 r := by
-  simp [keepRole, saml2, Policy.ideal]
-
-theorem keepRole_code_of_clean {p2 : α} {e : Ent α} (hc : entClean p2 e = true) {r : Role α} (hr : r ∈ e.roles) :
-    keepRole Policy.code p2 e r = saml2 p2 r := by
-  unfold entClean at hc
-  have h1 := List.all_eq_true.mp hc r hr
-  unfold keepRole saml2 Policy.code
-  simp only [↓reduceIte]
-  by_cases ha : r.kind = .affiliation
-  · simp [ha]
-  · simp only [ha, decide_false, Bool.false_or]
-    by_cases hp : r.protocols.contains p2 = true
-    · rw [hp]
-      unfold kindSupported
-      exact List.any_eq_true.mpr ⟨r, hr, by simpa using hp⟩
-    · simp only [Bool.not_eq_true] at hp
-      simp only [saml2, ha, decide_false, Bool.false_or, hp, Bool.not_eq_true'] at h1
-      rw [hp, h1]
-
-theorem prepEnt_code_eq_ideal {p2 : α} {e : Ent α} (hc : entClean p2 e = true) :
-    prepEnt Policy.code p2 e = prepEnt Policy.ideal p2 e := by
-  unfold prepEnt
-  have : e.roles.filter (keepRole Policy.code p2 e) = e.roles.filter (keepRole Policy.ideal p2 e) := by
-    apply List.filter_congr
-    intro r hr
-    rw [keepRole_code_of_clean hc hr, keepRole_ideal]
-  simp only [this]
 
 theorem mem_iff_lookup_of_nodup {m : EntMap α} (hn : (m.map (·.1)).Nodup) (id : α) (e : Ent α) :
     (id, e) ∈ m ↔ lookup m id = some e := by
@@ -184,8 +155,8 @@ theorem mem_iff_lookup_of_nodup {m : EntMap α} (hn : (m.map (·.1)).Nodup) (id 
         exact ih hn.2 h
   · exact lookup_mem
 
-theorem doEntity_nodup (pol : Policy) (chk : Bool) (now : Int) (p2 : α) (m : EntMap α) (e : Ent α)
-    (hn : (m.map (·.1)).Nodup) : ((doEntity pol chk now p2 m e).map (·.1)).Nodup := by
+theorem doEntity_nodup (chk : Bool) (now : Int) (p2 : α) (m : EntMap α) (e : Ent α)
+    (hn : (m.map (·.1)).Nodup) : ((doEntity chk now p2 m e).map (·.1)).Nodup := by
   unfold doEntity
   split
   · exact hn
@@ -202,44 +173,44 @@ theorem doEntity_nodup (pol : Policy) (chk : Bool) (now : Int) (p2 : α) (m : En
         subst hab
         exact hh ((has_iff_mem_keys m _).mpr ha)
 
-theorem foldl_doEntity_nodup (pol : Policy) (chk : Bool) (now : Int) (p2 : α) (es : List (Ent α)) (m : EntMap α)
-    (hn : (m.map (·.1)).Nodup) : ((es.foldl (doEntity pol chk now p2) m).map (·.1)).Nodup := by
+theorem foldl_doEntity_nodup (chk : Bool) (now : Int) (p2 : α) (es : List (Ent α)) (m : EntMap α)
+    (hn : (m.map (·.1)).Nodup) : ((es.foldl (doEntity chk now p2) m).map (·.1)).Nodup := by
   induction es generalizing m with
   | nil => exact hn
-  | cons e rest ih => exact ih _ (doEntity_nodup pol chk now p2 m e hn)
+  | cons e rest ih => exact ih _ (doEntity_nodup chk now p2 m e hn)
 
-theorem parseDoc_nodup {pol : Policy} {chk : Bool} {now : Int} {p2 : α} {m m' : EntMap α} {d : Doc α}
-    (h : parseDoc pol chk now p2 m d = .ok m') (hn : (m.map (·.1)).Nodup) : (m'.map (·.1)).Nodup := by
+theorem parseDoc_nodup {chk : Bool} {now : Int} {p2 : α} {m m' : EntMap α} {d : Doc α}
+    (h : parseDoc chk now p2 m d = .ok m') (hn : (m.map (·.1)).Nodup) : (m'.map (·.1)).Nodup := by
   unfold parseDoc at h
   split at h
   · split at h
     · cases h
-    · cases h; exact foldl_doEntity_nodup pol chk now p2 _ m hn
+    · cases h; exact foldl_doEntity_nodup chk now p2 _ m hn
   · split at h
-    · cases h; exact doEntity_nodup pol chk now p2 m _ hn
+    · cases h; exact doEntity_nodup chk now p2 m _ hn
     · cases h; exact hn
 
 /-- the entities of a document `parse` looks at -/
 def docEntities (d : Doc α) : List (Ent α) := if d.group then d.entities else d.entities.take 1
 
-theorem lookup_parseDoc {pol : Policy} {chk : Bool} {now : Int} {p2 : α} {m m' : EntMap α} {d : Doc α}
-    (h : parseDoc pol chk now p2 m d = .ok m') (id : α) :
+theorem lookup_parseDoc {chk : Bool} {now : Int} {p2 : α} {m m' : EntMap α} {d : Doc α}
+    (h : parseDoc chk now p2 m d = .ok m') (id : α) :
     lookup m' id = (lookup m id).or
-      (((docEntities d).find? (fun e => decide (e.id = id) && eligible pol chk now p2 e)).bind (prepEnt pol p2)) := by
+      (((docEntities d).find? (fun e => decide (e.id = id) && eligible chk now p2 e)).bind (prepEnt p2)) := by
   unfold parseDoc at h
   unfold docEntities
   split at h
   · next hg =>
     split at h
     · cases h
-    · cases h; simp only [hg, ↓reduceIte]; exact lookup_foldl_doEntity pol chk now p2 _ m id
+    · cases h; simp only [hg, ↓reduceIte]; exact lookup_foldl_doEntity chk now p2 _ m id
   · next hg =>
     simp only [hg, Bool.false_eq_true, ↓reduceIte]
     split at h
     · next e rest he =>
       cases h
       rw [he]
-      have := lookup_foldl_doEntity pol chk now p2 [e] m id
+      have := lookup_foldl_doEntity chk now p2 [e] m id
       simpa using this
     · next he =>
       cases h
@@ -248,38 +219,12 @@ theorem lookup_parseDoc {pol : Policy} {chk : Bool} {now : Int} {p2 : α} {m m' 
 
 /-! ### the pinned code and the reference coincide on clean inputs -/
 
-theorem doEntity_code_eq_ideal {p2 : α} {e : Ent α} (hc : entClean p2 e = true) (chk : Bool) (now : Int) (m : EntMap α) :
-    doEntity Policy.code chk now p2 m e = doEntity Policy.ideal chk now p2 m e := by
-  unfold doEntity
-  rw [prepEnt_code_eq_ideal hc]
-
-theorem foldl_doEntity_code_eq_ideal {p2 : α} (es : List (Ent α)) (hc : es.all (entClean p2) = true)
-    (chk : Bool) (now : Int) (m : EntMap α) :
-    es.foldl (doEntity Policy.code chk now p2) m = es.foldl (doEntity Policy.ideal chk now p2) m := by
-  induction es generalizing m with
-  | nil => rfl
-  | cons e rest ih =>
-    simp only [List.all_cons, Bool.and_eq_true] at hc
-    rw [List.foldl_cons, List.foldl_cons, doEntity_code_eq_ideal hc.1, ih hc.2]
-
-theorem parseDoc_code_eq_ideal {p2 : α} {d : Doc α} (hc : d.entities.all (entClean p2) = true)
-    (chk : Bool) (now : Int) (m : EntMap α) :
-    parseDoc Policy.code chk now p2 m d = parseDoc Policy.ideal chk now p2 m d := by
-  unfold parseDoc
-  rw [foldl_doEntity_code_eq_ideal d.entities hc]
-  cases hd : d.entities with
-  | nil => rfl
-  | cons e rest =>
-    rw [hd] at hc
-    simp only [List.all_cons, Bool.and_eq_true] at hc
-    simp only [doEntity_code_eq_ideal hc.1]
-
 theorem checkSig_code_eq_ideal (k : SrcKind) (cert : Bool) (s : Sig) (h : ¬ (cert = true ∧ s = .unsigned)) :
     checkSig Policy.code k cert s = checkSig Policy.ideal k cert s := by
   unfold checkSig
   cases cert <;> cases s <;> simp_all
 
-theorem loadSource_code_eq_ideal {p2 : α} {sp : SrcSpec α} (hc : specClean p2 sp = true) (now : Int) :
+theorem loadSource_code_eq_ideal {sp : SrcSpec α} (hc : specClean sp = true) (p2 : α) (now : Int) :
     loadSource Policy.code p2 now sp = loadSource Policy.ideal p2 now sp := by
   unfold loadSource
   unfold specClean at hc
@@ -288,39 +233,39 @@ theorem loadSource_code_eq_ideal {p2 : α} {sp : SrcSpec α} (hc : specClean p2 
   | malformed => rfl
   | doc d =>
     rw [hf] at hc
-    simp only [Bool.and_eq_true, Bool.not_eq_true', Bool.and_eq_false_iff, decide_eq_false_iff_not] at hc
+    simp only [Bool.not_eq_true', Bool.and_eq_false_iff, decide_eq_false_iff_not] at hc
     simp only
-    rw [parseDoc_code_eq_ideal hc.2, checkSig_code_eq_ideal]
+    rw [checkSig_code_eq_ideal]
     rintro ⟨h1, h2⟩
-    rcases hc.1 with h | h
+    rcases hc with h | h
     · rw [h1] at h; cases h
     · exact h h2
 
-theorem impFrom_code_eq_ideal {p2 : α} (specs : List (SrcSpec α)) (hc : specs.all (specClean p2) = true)
-    (now : Int) (st : Store α) :
+theorem impFrom_code_eq_ideal (specs : List (SrcSpec α)) (hc : specs.all specClean = true)
+    (p2 : α) (now : Int) (st : Store α) :
     impFrom Policy.code p2 now st specs = impFrom Policy.ideal p2 now st specs := by
   induction specs generalizing st with
   | nil => rfl
   | cons sp rest ih =>
     simp only [List.all_cons, Bool.and_eq_true] at hc
     unfold impFrom
-    rw [loadSource_code_eq_ideal hc.1]
+    rw [loadSource_code_eq_ideal hc.1 p2 now]
     cases loadSource Policy.ideal p2 now sp with
     | error _ => rfl
     | ok s => exact ih hc.2 _
 
-theorem reload_code_eq_ideal {p2 : α} (specs : List (SrcSpec α)) (hc : specs.all (specClean p2) = true)
-    (now : Int) (st : Store α) :
+theorem reload_code_eq_ideal (specs : List (SrcSpec α)) (hc : specs.all specClean = true)
+    (p2 : α) (now : Int) (st : Store α) :
     reload Policy.code p2 now st specs = reload Policy.ideal p2 now st specs := by
   unfold reload
-  rw [impFrom_code_eq_ideal specs hc]
+  rw [impFrom_code_eq_ideal specs hc p2 now]
 
 /-- the MDQ answer is one on which code and reference behave alike -/
-def fetchClean (p2 : α) (cert : Bool) (f : Fetch α) : Prop :=
-  ∀ d, f = .doc d → (cert = true → d.sig = .valid) ∧ d.entities.all (entClean p2) = true
+def fetchClean (cert : Bool) (f : Fetch α) : Prop :=
+  ∀ d, f = .doc d → cert = true → d.sig = .valid
 
-theorem mdxFetch_code_eq_ideal {p2 : α} {s : Source α} {resp : Fetch α} (hc : fetchClean p2 s.cert resp)
-    (now : Int) (eid : α) (ents : EntMap α) :
+theorem mdxFetch_code_eq_ideal {s : Source α} {resp : Fetch α} (hc : fetchClean s.cert resp)
+    (p2 : α) (now : Int) (eid : α) (ents : EntMap α) :
     mdxFetch Policy.code p2 now resp { s with entities := ents } eid =
       mdxFetch Policy.ideal p2 now resp { s with entities := ents } eid := by
   unfold mdxFetch
@@ -328,10 +273,9 @@ theorem mdxFetch_code_eq_ideal {p2 : α} {s : Source α} {resp : Fetch α} (hc :
   | unavailable => rfl
   | malformed => rfl
   | doc d =>
-    obtain ⟨h1, h2⟩ := hc d rfl
+    have h1 := hc d rfl
     simp only
-    rw [parseDoc_code_eq_ideal h2]
-    cases parseDoc Policy.ideal s.chk now p2 ents d with
+    cases parseDoc s.chk now p2 ents d with
     | error _ => rfl
     | ok m =>
       simp only
@@ -344,19 +288,19 @@ theorem mdxFetch_code_eq_ideal {p2 : α} {s : Source α} {resp : Fetch α} (hc :
       rw [hk, hk]
       rfl
 
-theorem mdxGet_code_eq_ideal {p2 : α} {s : Source α} {resp : Fetch α} (hc : fetchClean p2 s.cert resp)
-    (now : Int) (eid : α) :
+theorem mdxGet_code_eq_ideal {s : Source α} {resp : Fetch α} (hc : fetchClean s.cert resp)
+    (p2 : α) (now : Int) (eid : α) :
     mdxGet Policy.code p2 now resp s eid = mdxGet Policy.ideal p2 now resp s eid := by
   unfold mdxGet
-  have h0 := mdxFetch_code_eq_ideal hc now eid s.entities
-  have h1 := mdxFetch_code_eq_ideal hc now eid (erase s.entities eid)
+  have h0 := mdxFetch_code_eq_ideal hc p2 now eid s.entities
+  have h1 := mdxFetch_code_eq_ideal hc p2 now eid (erase s.entities eid)
   have e0 : ({ s with entities := s.entities } : Source α) = s := rfl
   rw [e0] at h0
   rw [h0, h1]
 
 
 def srcClean (c : Consts α) (mdq : α → α → Fetch α) (s : Source α) : Prop :=
-  s.kind = .mdq → ∀ eid, fetchClean c.p2 s.cert (mdq s.key eid)
+  s.kind = .mdq → ∀ eid, fetchClean s.cert (mdq s.key eid)
 
 theorem srcGet_code_eq_ideal {c : Consts α} {mdq : α → α → Fetch α} {s : Source α} (hc : srcClean c mdq s)
     (now : Int) (eid : α) :
@@ -364,7 +308,7 @@ theorem srcGet_code_eq_ideal {c : Consts α} {mdq : α → α → Fetch α} {s :
   unfold srcGet
   by_cases hk : s.kind = .mdq
   · simp only [hk, ↓reduceIte]
-    exact mdxGet_code_eq_ideal (hc hk eid) now eid
+    exact mdxGet_code_eq_ideal (hc hk eid) c.p2 now eid
   · simp only [hk, ↓reduceIte]
 
 theorem getItem_code_eq_ideal {c : Consts α} {mdq : α → α → Fetch α} (now : Int) (eid : α) (st : Store α)
@@ -416,30 +360,28 @@ theorem mdqFn_mem (l : List (MdqResp α)) (src eid : α) :
   · left; rfl
 
 theorem srcClean_of_cleanStep {c : Consts α} {st : Store α} {l : List (MdqResp α)}
-    (h : l.all (respClean c.p2 st) = true) : ∀ s ∈ st, srcClean c (mdqFn l) s := by
-  intro s hs hk eid d hd
+    (h : l.all (respClean st) = true) : ∀ s ∈ st, srcClean c (mdqFn l) s := by
+  intro s hs hk eid d hd hcert
   rcases mdqFn_mem l s.key eid with h0 | ⟨r, hr, hsrc, _, hf⟩
   · rw [h0] at hd; cases hd
   · rw [hf] at hd
     have h1 := List.all_eq_true.mp h r hr
     unfold respClean at h1
     rw [hd] at h1
-    simp only [Bool.and_eq_true, Bool.or_eq_true, Bool.not_eq_true', decide_eq_true_eq] at h1
-    refine ⟨?_, h1.2⟩
-    intro hcert
-    rcases h1.1 with h2 | h2
+    simp only [Bool.or_eq_true, Bool.not_eq_true', decide_eq_true_eq] at h1
+    rcases h1 with h2 | h2
     · have : st.any (fun s => decide (s.kind = .mdq) && s.cert && decide (s.key = r.src)) = true :=
         List.any_eq_true.mpr ⟨s, hs, by simp [hk, hcert, hsrc]⟩
       rw [this] at h2; cases h2
     · exact h2
 
-theorem step_code_eq_ideal (c : Consts α) (st : Store α) (s : Step α) (hc : cleanStep c.p2 st s = true) :
+theorem step_code_eq_ideal (c : Consts α) (st : Store α) (s : Step α) (hc : cleanStep st s = true) :
     step Policy.code c st s = step Policy.ideal c st s := by
   unfold step
   unfold cleanStep at hc
   cases hop : s.op with
-  | imp specs => rw [hop] at hc; simp only [impFrom_code_eq_ideal specs hc]
-  | reload specs => rw [hop] at hc; simp only [reload_code_eq_ideal specs hc]
+  | imp specs => rw [hop] at hc; simp only [impFrom_code_eq_ideal specs hc c.p2 s.now st]
+  | reload specs => rw [hop] at hc; simp only [reload_code_eq_ideal specs hc c.p2 s.now st]
   | q qu =>
     rw [hop] at hc
     simp only [Step.env]
